@@ -256,9 +256,15 @@ CLAIMS["C19"] = dict(
         "excluded at the position). Every run evaluates the decidable instance conditions (table conditions, closedness of "
         "the table the REAL calculator computes, class membership) on each explored grammar, ties Analysis/FirstSets.v to "
         "the calculator (K-first), and runs a brute-force first-token oracle on the implementation (all inputs up to length 3).",
-   design="6/C19", technique="Coq proofs by induction on PEG derivations (empty marker; first-token soundness of closed tables) + per-grammar instance conditions on the real table + brute-force oracle",
-   note="The theorem is about closed tables; that the calculator's table is closed is checked per explored grammar, not "
-        "proved for all grammars (with left recursion it is not closed, which is outside the property's class).")
+   design="6/C19", technique="Coq proofs (empty marker and first-token soundness by induction on PEG derivations; closedness of the computed table by an invariant over the memoizing calculator) + per-grammar instance conditions + brute-force oracle",
+   note="Since the end of the third session closedness is a THEOREM too (C19_computed_table_is_closed, Proofs/FirstClosed.v + "
+        "FirstClosedInst.v): for every grammar in which no rule reaches itself at one position (a checked rank along the initial "
+        "invocations of the analysis: the property's class 'without left recursion'), the table the model of FirstSetCalculator "
+        "computes is closed -- entries are never overwritten, a value returned for an item equals the pure value under every table "
+        "agreeing with the entries stored so far, the recursion guard is never hit; with C03_item_flags_are_exact for the flags. "
+        "C19_computed_first_sets_are_sound composes it with the soundness theorem. The instance conditions (rank from the REAL "
+        "first graph, no empty leaf, table conditions) are evaluated per explored grammar; the real table is tied to the model's by "
+        "K-first and its closedness is still evaluated directly as well.")
 CLAIMS["C07"] = dict(
    text="Partial (clauses ii-iv on the error-construction path this repository owns; clause i -- refuses exactly what the "
         "host interpreter refuses -- cannot be a theorem, see DESIGN.md section 11; it is searched: every explored text that "
